@@ -214,7 +214,19 @@ def run_worker(engine, variant, args, journal, timeout):
     try:
         r = subprocess.run(cmd, env=ENV, stdout=subprocess.PIPE, stderr=subprocess.PIPE, text=True, timeout=timeout)
     except subprocess.TimeoutExpired as e:
-        return ("timeout", [], "")
+        # what the worker printed before it was stopped (one JSON line per violating run, flushed per line)
+        part = e.stdout or ""
+        if isinstance(part, bytes):
+            part = part.decode("utf-8", "replace")
+        out = []
+        for line in part.splitlines():
+            line = line.strip()
+            if line.startswith("{") and line.endswith("}"):
+                try:
+                    out.append(json.loads(line))
+                except Exception:
+                    pass
+        return ("timeout", out, "")
     out = []
     for line in r.stdout.splitlines():
         line = line.strip()
@@ -247,13 +259,16 @@ def run_batch(engine, variant, seed, tag, profile, runs, steps, extra_args=(), l
         if profile == "recycle":
             per_run = 0.05 + steps * 2e-6
         timeout = 45 + (runs // nchunks) * per_run
+        if os.environ.get("VERIF_CHUNK_TIMEOUT"):
+            timeout = float(os.environ["VERIF_CHUNK_TIMEOUT"])  # (testing the slow-chunk path)
     bounds = [first + (runs * k) // nchunks for k in range(nchunks + 1)]
     chunks = [(bounds[k], bounds[k + 1]) for k in range(nchunks) if bounds[k] < bounds[k + 1]]
     violations, summaries = [], []
     crashes = [0]
     alloc_aborts = [0]
+    slow_chunks = [0]
 
-    def work(ch):
+    def work(ch, timeout=timeout):
         a, b = ch
         res_v, res_s = [], []
         guard = 0
@@ -283,9 +298,39 @@ def run_batch(engine, variant, seed, tag, profile, runs, steps, extra_args=(), l
             hdr, ops, order = read_journal(jpath)
             if rc == "timeout":
                 if hdr is None:
-                    raise HarnessError("worker timeout %s %s [%d,%d) without journal" % (engine, variant, a, b))
-                crashes[0] += 1
+                    # stopped exactly between two runs (the journal is rewritten at the start of each):
+                    # nothing hangs; the chunk was slow. Repeat it with twice the limit.
+                    if guard >= 5:
+                        raise HarnessError("worker timeout %s %s [%d,%d) without journal" % (engine, variant, a, b))
+                    slow_chunks[0] += 1
+                    timeout = timeout * 2
+                    res_v[:] = [v for v in res_v if not (a <= v.get("run", -1) < b)]
+                    continue
                 run_idx = hdr.get("run", a)
+                # Was it this run that does not return, or was the whole chunk slow (a loaded machine,
+                # a sanitizer build)? The one run is repeated alone with a limit of its own; only if it
+                # does not finish either is it reported. Otherwise the chunk resumes after it.
+                one = ["batch", "--seed", str(seed), "--tag", str(tag), "--from", str(run_idx), "--to", str(run_idx + 1)]
+                if engine != "sched":
+                    one += ["--profile", profile, "--steps", str(steps)]
+                one += list(extra_args)
+                rc1, out1, err1 = run_worker(engine, variant, one, jpath + ".one", 180 if profile != "recycle" else 600)
+                if rc1 != "timeout":
+                    # (violating runs the stopped worker had already reported are in res_v by now)
+                    for j in out1:
+                        if j.get("type") == "violation" and not any(v.get("run") == run_idx for v in res_v):
+                            j["variant"] = variant
+                            res_v.append(j)
+                    slow_chunks[0] += 1
+                    a = run_idx + 1
+                    guard -= 1 if slow_chunks[0] < 400 else 0
+                    timeout = timeout * 2
+                    try:
+                        os.unlink(jpath + ".one")
+                    except OSError:
+                        pass
+                    continue
+                crashes[0] += 1
                 rec = {"type": "violation", "engine": engine, "profile": profile, "variant": variant,
                        "run": run_idx, "seed": hdr.get("seed"), "cfg": hdr.get("cfg", {}), "ops": ops, "drop_order": [],
                        "violations": [{"props": HANG_PROPS.get((engine, profile), []), "kind": "worker-hang",
@@ -329,7 +374,9 @@ def run_batch(engine, variant, seed, tag, profile, runs, steps, extra_args=(), l
             violations += rv
             summaries += rs
     violations.sort(key=lambda v: (v.get("run", 0)))
-    return {"violations": violations, "summaries": summaries, "crashes": crashes[0], "alloc_aborts": alloc_aborts[0]}
+    if slow_chunks[0]:
+        log("NOTE: %d worker chunk(s) exceeded their time limit without any single run hanging (slow machine); they were resumed" % slow_chunks[0])
+    return {"violations": violations, "summaries": summaries, "crashes": crashes[0], "alloc_aborts": alloc_aborts[0], "slow_chunks": slow_chunks[0]}
 
 
 def crash_props(ops):
